@@ -592,3 +592,21 @@ pub fn evolve_enum256<S: Src>(s: &mut S) {
     assert!(savefile::Serializer::bare_serialize(&mut f2, 1, &E256New::V255).is_ok());
     assert!(f2 == vec![255u8], "C02/C03: the 256th variant is written as the single byte 255");
 }
+
+// ---------------------------------------------------------------------------------------------------------------
+// C12 for an enum with more than 256 variants: `Variant::discriminant` in a schema is a u8, so variants with index
+// >= 256 cannot be described at all. The two halves are separate harnesses so that this known limitation is keyed
+// to the high half only.
+pub fn schema_e257<S: Src, const HIGH: bool>(s: &mut S) {
+    use crate::family_gen::E257;
+    use crate::refenc::ref_bytes;
+    if HIGH {
+        crate::schemaread::schema_faithful_value(&E257::V256, 0, "E257, variant index >= 256");
+        return;
+    }
+    let v = <E257 as Fam>::sym(s);
+    let b = ref_bytes(&v, 0);
+    let idx = b[0] as usize | ((b[1] as usize) << 8);
+    s.assume(idx < 256);
+    crate::schemaread::schema_faithful_value(&v, 0, "E257, variant index < 256");
+}
